@@ -323,7 +323,10 @@ def proj(pid, op, core):
     if kind == "cins":
         d = kv(core)
         if pid == "C13":
-            return (d.get("r"), d.get("len"), d.get("full"))
+            # which of the two errors is reported when both apply is not fixed by the property: the projection only
+            # says "rejected"; the reference-log oracle (which knows the state) judges whether the error is a right one
+            r = d.get("r", "")
+            return ("rejected" if r in ("present", "toolarge") else r, d.get("len"), d.get("full"))
         if pid == "C12":
             r = d.get("r", "")
             return ("evicts" if r.startswith("ok:") and r != "ok:0" else r if not r.startswith("ok:") else "keeps")
